@@ -300,7 +300,7 @@ class Engine:
         if c.get("def"):
             args = tuple(c.get("def_args", ()))
             if c.get("promoted") is not None:
-                return ("promoted", c["def"], c["promoted"], args)
+                return self.promoted_value(c["def"], c["promoted"], args)
             # concrete named const with an evaluated value?
             ev = self.evals.get(c["def"])
             if ev and not args:
@@ -324,6 +324,29 @@ class Engine:
         # zero-sized values such as PhantomData
         return ("zst", c["text"])
 
+    def promoted_value(self, owner, idx, args):
+        """evaluate a promoted constant of `owner` (a tiny straight-line body)"""
+        key = (owner, idx)
+        cache = self.__dict__.setdefault("_promoted", {})
+        if key in cache:
+            return cache[key]
+        r = ("promoted", owner, idx, args)
+        cache[key] = r
+        for b in self.by_path.get(owner, []):
+            for pb in b.get("promoted", []):
+                if pb["index"] == idx:
+                    body = {"id": b["id"] + "#promoted%d" % idx, "path": owner + "::{promoted#%d}" % idx, "arg_count": 0,
+                            "locals": pb["locals"], "blocks": pb["blocks"], "kind": "Promoted", "vis": "", "impl": None}
+                    try:
+                        outs = Analysis(self, Policy()).run(body, [])
+                    except Budget:
+                        outs = []
+                    rets = [o for o in outs if o.end == "return"]
+                    if len(rets) == 1 and len(outs) == 1:
+                        r = rets[0].ret
+        cache[key] = r
+        return r
+
     def project(self, base, i, name, ty=None):
         if isinstance(base, tuple):
             if base[0] == "agg" and i < len(base[4]):
@@ -337,6 +360,8 @@ class Engine:
         return ("field", base, i, name, ty)
 
     def adt_variant_discr(self, adt_path, vidx):
+        if adt_path == "std::cmp::Ordering":
+            return (-1, 0, 1)[vidx]
         a = self.adts.get(adt_path)
         if a and a["kind"] == "enum":
             d = a["variants"][vidx]["discr"]
@@ -958,6 +983,14 @@ def std_model(an, frame, ev, path):
                 return a[0][4][0]
     if d == "std::ptr::from_ref":
         return a[0]
+    if st and st.startswith("std::marker::PhantomData<"):
+        m = d.split("::")[-1]
+        if tr == "std::cmp::PartialEq" and m in ("eq", "ne"):
+            return I(1 if m == "eq" else 0, "bool")
+        if tr == "std::cmp::Ord" and m == "cmp":
+            return ("agg", "std::cmp::Ordering", 1, "Equal", ())
+        if tr == "std::cmp::PartialOrd" and m == "partial_cmp":
+            return ("agg", "std::option::Option", 1, "Some", (("agg", "std::cmp::Ordering", 1, "Equal", ()),))
     if re.match(r"^(core|std)::num::<impl (usize|u8|u32|u64)>::(saturating_sub|saturating_add|wrapping_sub|wrapping_add)$", d) and is_int(a[1]) and a[1][1] == 0:
         return a[0]
     if d in ("std::ops::RangeInclusive::<Idx>::start", "std::ops::RangeInclusive::<Idx>::end"):
